@@ -26,7 +26,8 @@ ITEMS = ["MAX_MSG_QUEUE_SIZE", "msg_queue_resume_size", "parser_queue_full", "pr
          "parse_error_status", "timeout_status", "exception_status", "default_lingering_time",
          "ErrInfo append shape", "handle_error output_size shape", "parser constructed with the cap",
          "HTTPException branch output_size shape", "StreamResponse._start resets the writer when _prepare_headers raises",
-         "_settle_declined_upgrade called from finish_response and from start after the payload check"]
+         "_settle_declined_upgrade called from finish_response and from start after the payload check",
+         "data_received closing guard queues nothing"]
 
 WP = "aiohttp/web_protocol.py"
 HP = "aiohttp/http_parser.py"
@@ -160,7 +161,19 @@ def generate() -> str:
     # data_received: except HttpProcessingError -> messages = [(_ErrInfo(status=400, ...), EMPTY_PAYLOAD)]
     handlers = [h for n in ast.walk(dr) if isinstance(n, ast.Try) for h in n.handlers
                 if isinstance(h.type, ast.Name) and h.type.id == "HttpProcessingError"]
-    h = _one(handlers, "RequestHandler.data_received: except HttpProcessingError")
+    # cff98d2: while closing, the body of the request in flight is still fed to the parser; that guard has its own
+    # `except HttpProcessingError: pass` and must return before anything is queued
+    guard = [st2 for st2 in dr.body if isinstance(st2, ast.If) and ast.unparse(st2.test) in
+             ("self._force_close or self._close", "self._close or self._force_close")]
+    guard = _one(guard, "RequestHandler.data_received: `if self._force_close or self._close:` guard")
+    if dr.body.index(guard) != min(i for i, st2 in enumerate(dr.body) if not (isinstance(st2, ast.Expr) and isinstance(st2.value, ast.Constant))) \
+            or not isinstance(guard.body[-1], ast.Return) or guard.orelse:
+        raise TranslatorError("data_received: the closing guard must be the first statement and end with return")
+    if any(isinstance(n, ast.Call) and isinstance(n.func, ast.Attribute) and n.func.attr in ("append", "set_result") for n in ast.walk(guard)):
+        raise TranslatorError("data_received: the closing guard must not queue messages or wake start()")
+    in_guard = {id(n) for n in ast.walk(guard)}
+    handlers = [h for h in handlers if id(h) not in in_guard]
+    h = _one(handlers, "RequestHandler.data_received: except HttpProcessingError (outside the closing guard)")
     status = None
     for s in h.body:
         if isinstance(s, ast.Assign) and isinstance(s.targets[0], ast.Name) and s.targets[0].id == "messages":
